@@ -340,7 +340,7 @@ Section RT.
       rewrite Hsc.
       assert (exists atts, real_atts (if add_type then type_marker shape_ok C U d else []) = atts
                            /\ is_nil atts = false
-                           /\ retarget shape_ok C U sc' atts (TRef c) = Ok (TRef d, add_type)) as [atts [Ea [Hnil Hret]]].
+                           /\ retarget shape_ok C U sc' atts (TRef c) = Ok (TRef d)) as [atts [Ea [Hnil Hret]]].
       { destruct add_type eqn:Eat.
         - eexists. split; [reflexivity|]. unfold type_marker. cbn [shape_ok sh_type_decl sh_type_keep andb].
           unfold real_atts. cbn [filter]. rewrite is_decl_xsi, is_decl_xmlns. cbn [negb].
@@ -354,7 +354,8 @@ Section RT.
           { unfold registered in Hreg. revert Hreg.
             destruct (reg_find (p_reg C) (cls_ns U d, cls_name U d)) as [[|d'|]|]; try discriminate.
             intro Hreg. apply Nat.eqb_eq in Hreg. subst d'. reflexivity. }
-          rewrite Er. cbn [shape_ok sh_xsi_guard xsi_guard andb]. rewrite Hsub. reflexivity.
+          rewrite Er. cbn [shape_ok sh_xsi_guard]. unfold xsi_target.
+          rewrite Nat.eqb_sym, Ene, Hsub. reflexivity.
         - exists []. split; [reflexivity|]. split; [reflexivity|].
           unfold retarget. rewrite Hxsi. cbn [negb lookup_att].
           unfold add_type in Eat.
